@@ -3,4 +3,5 @@ use crate::Ctx;
 
 pub fn run(ctx: &mut Ctx) {
     crate::generic::c06_all(ctx);
+    crate::props_marlin::c06(ctx);
 }
